@@ -5,6 +5,11 @@ use crate::refm::*;
 use crate::seq::*;
 use crate::world::*;
 
+pub mod c02;
+pub mod c03;
+pub mod c04;
+pub mod c05;
+pub mod c06;
 pub mod value;
 
 pub use value::ValueOracle;
@@ -21,12 +26,18 @@ pub struct PropSpec {
 pub fn spec(id: &str) -> Option<PropSpec> {
     match id {
         "C01" => Some(value::spec_c01()),
+        "C02" => Some(c02::spec_c02()),
+        "C03" => Some(c03::spec_c03()),
+        "C04" => Some(c04::spec_c04()),
+        "C05" => Some(c05::spec_c05()),
+        "C06" => Some(c06::spec_c06()),
+        "C07" => Some(c06::spec_c07()),
         _ => None,
     }
 }
 
 pub fn all_ids() -> Vec<&'static str> {
-    vec!["C01"]
+    vec!["C01", "C02", "C03", "C04", "C05", "C06", "C07"]
 }
 
 pub(crate) fn viol(rule: &str, step: usize, detail: String) -> Violation {
